@@ -1,0 +1,68 @@
+//! Observation points for external verification tooling.
+//! Compiled only with the `verif-hooks` cargo feature; adds no behaviour.
+
+use full_moon::{ast::Ast, node::Node};
+
+use crate::{
+    ast_util::visit_nodes::{NodeVisitor, VisitorType},
+    lint_filtering,
+    lints::{Diagnostic, Severity},
+    CheckerDiagnostic,
+};
+
+pub use crate::lint_filtering::parse_comment;
+
+/// One entry of `lint_filtering::get_filter_ranges`, in the order the filter visitor produced it.
+#[derive(Clone, Debug)]
+pub enum FilterRange {
+    Accepted {
+        global: bool,
+        lint: String,
+        severity: Severity,
+        comment_range: (usize, usize),
+        range: (usize, usize),
+    },
+    Rejected {
+        comment_range: (u32, u32),
+        message: String,
+    },
+}
+
+pub fn filter_ranges(ast: &Ast) -> Vec<FilterRange> {
+    lint_filtering::verif_filter_ranges(ast)
+}
+
+pub fn filter_diagnostics(
+    ast: &Ast,
+    diagnostics: Vec<CheckerDiagnostic>,
+    invalid_lint_filter_severity: Severity,
+) -> Vec<CheckerDiagnostic> {
+    lint_filtering::filter_diagnostics(ast, diagnostics, invalid_lint_filter_severity)
+}
+
+/// Calls `callback(node, visitor type name)` for every node the crate's `NodeVisitor` dispatches on,
+/// in its traversal order.
+pub fn visit_nodes(ast: &Ast, callback: &mut dyn FnMut(&dyn Node, String)) {
+    struct Forward<'a> {
+        callback: &'a mut dyn FnMut(&dyn Node, String),
+    }
+
+    impl NodeVisitor for Forward<'_> {
+        fn visit_node(&mut self, node: &dyn Node, visitor_type: VisitorType) {
+            (self.callback)(node, format!("{visitor_type:?}"));
+        }
+    }
+
+    Forward { callback }.visit_nodes(ast);
+}
+
+pub fn first_code(ast: &Ast) -> Option<(usize, usize)> {
+    crate::ast_util::first_code(ast).map(|(start, end)| (start.bytes(), end.bytes()))
+}
+
+pub fn rejected_from(diagnostic: &Diagnostic) -> FilterRange {
+    FilterRange::Rejected {
+        comment_range: diagnostic.primary_label.range,
+        message: diagnostic.message.clone(),
+    }
+}
